@@ -455,17 +455,17 @@ def mutations(c, sc, d):
     return out
 
 
-WIDE_ITEMS = ["a", "b*", "c?", "a{1,3}", "b{0,4}", "(c b){0,4}", "(a | b){2,3}", "c{3}", "a+", "(a b)*"]
+WIDE_ITEMS = ["a", "b", "c", "b*", "c?", "a{1,3}", "b{0,4}", "(c b){0,4}", "(a | b){2,3}", "c{3}", "a+", "(a b)*"]
 
 
 def check_wide(u, res):
-    """Schemas whose top content expression is a sequence of up to 3 WIDE_ITEMS: validity of every child sequence
+    """Schemas whose top content expression is a sequence of up to 4 WIDE_ITEMS: validity of every child sequence
     up to 6 over {a, b, c} must agree with the reference (large automata: many subset states)."""
     from ..ref.schema_model import SchemaModel
 
     idx = 0
     n = 0
-    for ln in (1, 2, 3):
+    for ln in (1, 2, 3, 4):
         for combo in itertools.product(WIDE_ITEMS, repeat=ln):
             if idx % u["nblocks"] != u["block"]:
                 idx += 1
